@@ -273,3 +273,45 @@ Proof.
   destruct (swap_all L (bidn (v_bid v)) (bidn (v_bid v)) (vfl L v i) (vfl L v i) _ (seq 0 (length L))) as [x evs].
   cbn [fst snd] in *. destruct H as [H1 H2]. split; apply (rep_mem_ext L Hwf); assumption.
 Qed.
+
+(* ---------- lists without a VaryingSize parameter: all elements of a vector have equal field
+   sizes, so any two of them can be assigned to / swapped with each other ---------- *)
+Lemma cnts_no_varying : forall L fc p p' t t', has_varying L = false ->
+  tuple_ok L fc p t -> tuple_ok L fc p' t' -> cnts_of t = cnts_of t'.
+Proof.
+  induction L as [|q L IH]; intros fc p p' t t' Hv Ht Ht'.
+  - destruct t; destruct t'; try reflexivity; destruct fc; contradiction.
+  - destruct fc as [|c fc]; [destruct t; contradiction|].
+    destruct t as [|f t]; [contradiction|]. destruct t' as [|f' t']; [contradiction|].
+    cbn [tuple_ok] in Ht, Ht'. destruct Ht as (_ & Hl & Hr). destruct Ht' as (_ & Hl' & Hr').
+    unfold has_varying in Hv. cbn [existsb] in Hv. apply orb_false_iff in Hv. destruct Hv as [Hq Hv].
+    unfold cnts_of. cbn [map]. fold (cnts_of t) (cnts_of t'). f_equal.
+    + unfold is_varying in Hq. destruct (pk q); cbn in Hq; try discriminate; congruence.
+    + exact (IH fc _ _ t t' Hv Hr Hr').
+Qed.
+
+Theorem ref_assign_refines_update_fixed L : wf_plist L = true -> has_varying L = false ->
+  forall v l offs i j, RepO L v l offs -> (i < length l)%nat -> (j < length l)%nat -> i <> j ->
+  let r := ref_assign false L true v (Z.of_nat i) v (Z.of_nat j) in
+  RepO L (fst (fst r)) (upd i (nth j l []) l) offs.
+Proof.
+  intros Hwf Hv v l offs i j R Hi Hj Hij.
+  assert (Hc : cnts_of (nth i l []) = cnts_of (nth j l [])).
+  { apply (cnts_no_varying L (fixed_counts L (v_fixed v)) 0 0); [exact Hv| |].
+    - exact (proj1 (rep_ref L Hwf v l offs i R Hi)).
+    - exact (proj1 (rep_ref L Hwf v l offs j R Hj)). }
+  exact (proj1 (ref_assign_refines_update L Hwf v l offs R i j Hi Hj Hij Hc)).
+Qed.
+
+Theorem ref_swap_refines_exchange_fixed L : wf_plist L = true -> has_varying L = false ->
+  forall v l offs i j, RepO L v l offs -> (i < length l)%nat -> (j < length l)%nat -> i <> j ->
+  let r := ref_swap L true v (Z.of_nat i) v (Z.of_nat j) in
+  RepO L (fst (fst r)) (upd i (nth j l []) (upd j (nth i l []) l)) offs.
+Proof.
+  intros Hwf Hv v l offs i j R Hi Hj Hij.
+  assert (Hc : cnts_of (nth i l []) = cnts_of (nth j l [])).
+  { apply (cnts_no_varying L (fixed_counts L (v_fixed v)) 0 0); [exact Hv| |].
+    - exact (proj1 (rep_ref L Hwf v l offs i R Hi)).
+    - exact (proj1 (rep_ref L Hwf v l offs j R Hj)). }
+  exact (proj1 (ref_swap_refines_exchange L Hwf v l offs R i j Hi Hj Hij Hc)).
+Qed.
